@@ -178,4 +178,9 @@ TypeRule ==
             ld == IF cs.a.fe /\ cs.b.fe THEN Bcast(Lead(cs.a), Lead(cs.b)) ELSE Lead(f)      \* partial fields broadcast to the full (Ne, nPg)
         IN  Len(cs.res.shape) >= 2 /\ SubSeq(cs.res.shape, 1, 2) = ld
 EmitOK == Emit => PrintT(<<"CASE", ToJson(cs)>>)
+(* The pointwise operations on ONE operand are homogeneous: op(s A) = s^deg op(A) for every s > 0, n the matrix dimension.  The     *)
+(* replay applies them to the operand multiplied by 1e-14 (a heterogeneous field whose entries all lie within 1e-12 of each other  *)
+(* in absolute terms is still heterogeneous).                                                                                        *)
+ScaleDegree(op, n) == CASE op = "inv" -> -1 [] op = "det" -> n [] op \in {"trace", "transpose", "T"} -> 1 [] OTHER -> 1
+
 =============================================================================
